@@ -1,13 +1,14 @@
 """C06 -- detection flags exactly the violating records and agrees with verification."""
 from runner.core import Context, finish
 
-MODULES = ['contracts.constraints', 'contracts.pddetect']
+MODULES = ['contracts.constraints', 'contracts.pddetect', 'contracts.pdio']
 PID = 'C06'
 
 
 def targets():
     import contracts.constraints as cc
     import contracts.pddetect
+    import contracts.pdio
     from pyvc.contracts import REGISTRY
     return [i for i, c in REGISTRY.items() if not c.assumed and 'C06' in c.props]
 
